@@ -7,10 +7,10 @@ set -u
 VERIF="$(cd "$(dirname "${BASH_SOURCE[0]}")/.." && pwd)"
 ID="$(echo "${1:-}" | tr a-z A-Z)"
 case "$ID" in
-  C01) RUNS=400000; MAXLEN=700 ;;
+  C01) RUNS=240000; MAXLEN=700 ;;
   C02) RUNS=300000; MAXLEN=700 ;;
   C03) RUNS=24000;   MAXLEN=900 ;;
-  C04) RUNS=60000;   MAXLEN=900 ;;
+  C04) RUNS=32000;   MAXLEN=900 ;;
   C05) RUNS=20000;   MAXLEN=500 ;;
   C06) RUNS=20000;   MAXLEN=700 ;;
   C07) RUNS=30000;   MAXLEN=400 ;;
